@@ -22,19 +22,12 @@ UNITS = [
          props=["C02", "C12"], no_dfcc=True, remove_bodies=["bidib_communication_works", "bidib_build_message_hex_string"],
          extra_flags=["--unwind", "8", "--unwinding-assertions"], unwind_reason="terminator scans are bounded by the 4-byte address stack under the well-formedness precondition (unwinding assertions prove it)",
          covers=2, min_obligations=8, replay="units/C02/extract.c"),
-    Unit(name="C02.split_packet", src="units/C02/split_packet.c", functions=["bidib_split_packet"], props=["C02", "C12"],
+    Unit(name="C02.split_packet", src="units/C02/split_packet.c", functions=["bidib_split_packet"], props=["C02", "C12"], defines=["VP_MAX_PACKET=12"],
          replace=["bidib_extract_msg_type", "bidib_extract_seq_num", "bidib_extract_address", "bidib_node_state_get_and_incr_receive_seqnum",
                   "bidib_node_state_set_receive_seqnum", "bidib_node_state_update", "bidib_handle_received_message"],
          remove_bodies=[f for f in RX_OTHERS if f != "bidib_handle_received_message"] + ["bidib_receive_packet"],
-         loops=[{"function": "bidib_split_packet", "anchor": r"for \(size_t i = 0; i < buffer_size; i \+= j\)",
-                 "invariants": "i == g_off && i <= buffer_size && g_upd_calls == g_count && buffer_size == g_size && buffer == g_pkt",
-                 "assigns": "i, j, start, end, g_off, g_count, g_upd_calls, g_x_type, g_x_seq, __CPROVER_object_whole(g_x_addr)"},
-                {"function": "bidib_split_packet", "anchor": r"for \(size_t k = 1; k <= 4",
-                 "invariants": "1 <= k && k <= 5 && addr_end == 0 && (!(k > 1) || buffer[i + 1] != 0) && (!(k > 2) || buffer[i + 2] != 0) && (!(k > 3) || buffer[i + 3] != 0) && (!(k > 4) || buffer[i + 4] != 0)",
-                 "assigns": "k, addr_end", "decreases": "5 - k"},
-                {"function": "bidib_split_packet", "anchor": r"for \(j = 0; j <= buffer\[i\]",
-                 "invariants": "j <= (unsigned long)buffer[i] + 1 && (!(0 < j) || message[0] == buffer[i + 0]) && (!(1 < j) || message[1] == buffer[i + 1]) && (!(2 < j) || message[2] == buffer[i + 2]) && (!(3 < j) || message[3] == buffer[i + 3]) && (!(4 < j) || message[4] == buffer[i + 4]) && (!(5 < j) || message[5] == buffer[i + 5]) && (!(6 < j) || message[6] == buffer[i + 6]) && (!(g_w < j) || message[g_w] == buffer[i + g_w])",
-                 "assigns": "j, __CPROVER_object_whole(message)", "decreases": "(unsigned long)buffer[i] + 1 - j"}],
-         timeout=600, covers=2, min_obligations=20,
-         note="arbitrary packet content and size 0..255; arbitrary expected sequence number"),
+         kind="bounded", bound="packets of at most 12 bytes (up to 3 messages), all three loops unwound completely for that size (unwinding assertions on); "
+                               "the DFCC loop-contract proof for packets up to 255 bytes did not finish within 600 s",
+         unwindset={"bidib_split_packet.0": 6, "bidib_split_packet.1": 14, "bidib_split_packet.2": 5}, timeout=600, covers=2, min_obligations=20,
+         note="arbitrary packet content; arbitrary expected sequence number; callee contracts enforce that the dispatcher receives the next whole message, byte-identical, after one node-state update"),
 ]
